@@ -15,7 +15,6 @@ qm_c08 — driver for the runtime compatibility tables (M-Types `Compat.lean`). 
   (is-type <pattern> <tag>)   → true | false | fuel-out     (through `typeCompat` + `isType`)
   (message fn|builtin|other <id> <tag>)  → true | false | fuel-out  (`paramCompat` + `checkMessage`)
   (compat a b)         → true | false | fuel-out
-  (compatT a b)        → the same with the proposed rule `cycleDropsInnerStack` (NOT the code; names the mechanism of R6)
   (sound <pattern> <tag> efuel width)   every enumerated inhabitant of the tag's type inhabits the
                          pattern → ok <n> | (bad <value>) | no-type
   (classes)            → string over f c x (as qm_c09)
@@ -124,11 +123,6 @@ def c08Step (s : C08State) (req : List Sx) : C08State × String :=
   | [.list [.atom "compat", a, b]] =>
     match a.asNat, b.asNat with
     | some a, some b => (s, renderOptBool (isCompatible T c08Fuel a b))
-    | _, _ => (s, "bad-request")
-  | [.list [.atom "compatT", a, b]] =>
-    -- NOT the code (the proposed rule `cycleDropsInnerStack`): only used to name the mechanism of an unsound acceptance
-    match a.asNat, b.asNat with
-    | some a, some b => (s, renderOptBool ((checkRelV { cycleDropsInnerStack := true } T .all c08Fuel [] {} a b).map (·.1)))
     | _, _ => (s, "bad-request")
   | [.list [.atom "classes"]] =>
     let n := T.types.length + 1
